@@ -83,6 +83,9 @@ def gen(rng, tier, n):
                 continue
             doc = Obj([rng.choice([("uniqueItems", True), ("const", [x, x]), ("enum", [[x], [x, x]]),
                                    ("items", Obj([("const", x)])), ("contains", Obj([("enum", [x])])) ])])
+        elif r < 0.16 and isinstance(j, Num) and j.frac().denominator == 1 and abs(j.frac()) >= 2**53:
+            # float multipleOf on large integers: outside the model's domain, but every representation must agree with the canonical one
+            doc = Obj([("multipleOf", Num(rng.choice(["3", "7", "10", "1.5", "6", "1000"])))])
         elif r < 0.2 and isinstance(j, Num) and j.frac().denominator == 1 and abs(j.frac()) >= 2**53:
             doc = Obj([(rng.choice(["minimum", "exclusiveMinimum", "maximum", "exclusiveMaximum"]),
                         Num(rng.choice(["0", "-1", "9223372036854775807", "9223372036854775808", "1e19"])))])
@@ -102,6 +105,13 @@ def nontrivial(o):
 
 def judge(o, go, m):
     st, d = vjudge.judge_validate(o, go, m)
+    if st == "skip" and go is not None and go.get("outcome") == "resolved":
+        # outside the model's domain (float multipleOf beyond 2^50): the property itself is still observed on the real package —
+        # every representation must get the verdict of the canonical decoding, whatever that verdict is
+        vs = go.get("verdicts") or []
+        if vs and any(v != vs[0] for v in vs):
+            return "violation", "verdict depends on the representation: %r (first = canonical decoding)" % (vs,)
+        return st, d
     if st != "agree":
         return st, d
     vs = go.get("verdicts") or []
